@@ -147,32 +147,43 @@ def run(tasks, fn_name, job_timeout=120, nproc=None, extra=(), init_name=None, c
         conns = [w["conn"] for w in active]
         ready = mpc.wait(conns, timeout=0.5)
         now = time.time()
+        def drain(w):
+            nonlocal done_n
+            try:
+                while w["conn"].poll():
+                    msg = w["conn"].recv()
+                    w["t"] = now
+                    if msg[0] == "start":
+                        w["cur"] = msg[1]
+                    elif msg[0] == "done":
+                        idx, r = msg[1], msg[2]
+                        w["done"].add(idx)
+                        w["cur"] = None
+                        results.append((w["optset"], w["jobs"][idx], r))
+                        done_n += 1
+                    elif msg[0] == "end":
+                        if msg[1]:
+                            stats.merge(msg[1])
+                        w["ended"] = True
+                    elif msg[0] == "crash":
+                        w["crash"] = msg[1]
+            except (EOFError, OSError):
+                w["eof"] = True
+
         for w in list(active):
             if w["conn"] in ready:
-                try:
-                    while w["conn"].poll():
-                        msg = w["conn"].recv()
-                        w["t"] = now
-                        if msg[0] == "start":
-                            w["cur"] = msg[1]
-                        elif msg[0] == "done":
-                            idx, r = msg[1], msg[2]
-                            w["done"].add(idx)
-                            w["cur"] = None
-                            results.append((w["optset"], w["jobs"][idx], r))
-                            done_n += 1
-                        elif msg[0] == "end":
-                            if msg[1]:
-                                stats.merge(msg[1])
-                            w["ended"] = True
-                        elif msg[0] == "crash":
-                            w["crash"] = msg[1]
-                except (EOFError, OSError):
-                    w["eof"] = True
+                drain(w)
             if w.get("ended"):
                 finish(w)
                 continue
             dead = not w["proc"].is_alive()
+            if dead:
+                # the worker may have sent its last results and exited after `wait` returned: read them before judging
+                w.pop("eof", None)
+                drain(w)
+                if w.get("ended"):
+                    finish(w)
+                    continue
             stuck = w["cur"] is not None and now - w["t"] > job_timeout + hard_grace
             boot_stuck = w["cur"] is None and not w["done"] and now - w["t0"] > 120
             if dead or stuck or boot_stuck or w.get("eof") or w.get("crash"):
